@@ -361,7 +361,7 @@ package fit
 //@ pred wf_encdef(def *encodeMesgDef) := len(def.fields) <= 255 && (forall k in 0..len(def.fields) :: def.fields[k] != nil && byte(def.fields[k].t)&0x1F <= 16)
 
 //@ func (e *encoder) writeDefMesg(def *encodeMesgDef) (err error)
-//@   props C05
+//@   props C05 C06 C07
 //@   locals rangeindex int, fdef fieldDef, f *field
 //@@ what is written for each field: its number, the size rule above and its base type, three bytes
 //@   callsite Write [field-def] fdef.num == f.num && fdef.size == defSize(f) && fdef.btype == fbase(f.t)
@@ -755,6 +755,8 @@ package fit
 
 //@ func (d *decoder) parseFitFieldArray(dm *defmsg, dfield fieldDef, fieldv reflect.Value) (err error)
 //@   props C01
+//@@ a byte-array field owns its bytes (the decoder's scratch buffer is overwritten by the next field)
+//@   callsite SetBytes [own-copy] {C02 C06} fresh(byteArray) && len(byteArray) == int(dfield.size) && (forall k in 0..len(byteArray) :: byteArray[k] == d.tmp[k])
 //@   callsite SetInt [elem-s16] {C02} j == 2*k && i16 == int64(tmp16at(d, dm, j))
 //@   callsite SetUint [elem-u16] {C02} j == 2*k && ui16 == uint64(tmp16at(d, dm, j))
 //@   callsite SetInt [elem-s32] {C02} j == 4*k && i32 == int64(tmp32at(d, dm, j))
@@ -764,7 +766,7 @@ package fit
 //@   ensures [other-cells] {C12} forall c int :: c != rvcell(fieldv) ==> rvtimeat(fieldv, c) == old(rvtimeat(fieldv, c))
 //@   ensures [not-clean-eof] !iserr(err, errReadSize)
 //@   requires archOK(dm) && rvmt(fieldv) < 0xFFF0 && types.KnownIdx(dfield.btype)
-//@   locals j int, k int, i16 int64, ui16 uint64, i32 int64, ui32 uint64, f32 float64, f64 float64
+//@   locals j int, k int, i16 int64, ui16 uint64, i32 int64, ui32 uint64, f32 float64, f64 float64, byteArray []byte
 //@   requires [array] arrayOK(dfield.btype, dfield.size, rvcls(fieldv), rvecls(fieldv), rvewid(fieldv), rvttag(fieldv))
 //@   assigns rvstate(fieldv)
 //@   loop 0 invariant [range] 0 <= j && j <= int(dfield.size)
@@ -1260,6 +1262,10 @@ package fit
 //@@ C04: a file is accepted only if the CRC residue of all its bytes (header, data, stored CRC) is zero
 //@   ensures [residue] {C04} err == nil && !headerOnly && !fileIDOnly && !crcOnly ==> sfold(r, 0, old(pos(r)), pos(r)) == 0
 //@   assigns {C04} crcstart(d)
+//@@ C04: CheckIntegrity(r, true) and DecodeHeader judge the header alone: exactly the header is consumed
+//@   ensures [header-only-c04] {C04} err == nil && headerOnly ==> pos(r) == old(pos(r))+int(d.h.Size)
+//@@ C13: a file starts with no definitions, whatever was decoded before with whatever decoder
+//@   requires [no-definitions] {C13} forall s in 0..16 :: d.defmsgs[s] == nil
 //@   assigns {C03 C11} nvalid(d)
 
 //@ func CheckIntegrity(r io.Reader, headerOnly bool) (err error)
